@@ -1116,9 +1116,23 @@ int CBigComplexLinProb::PBCGSolveMod(int flag,bool verbose)
     }
 
 
-    // call the complex-symmetric solver
+    // call the complex-symmetric solver.  Its stopping test uses a recursively updated
+    // residual, which can drift away from b-A*V: restart from the returned vector until the
+    // true residual meets the tolerance or no longer improves.
+    int status=PBCGSolve(2);
+    double lastEr=-1;
+    while(status==1)
+    {
+        MultA(V,R);
+        for(int i=0; i<n; i++) R[i]=b[i]-R[i];
+        double trueEr=nrm(R)/nrm(b);
+        if(!(trueEr>Precision)) break;
+        if((lastEr>=0) && !(trueEr<0.5*lastEr)) break;
+        lastEr=trueEr;
+        status=PBCGSolve(2);
+    }
 #ifdef XFEMM_VERIF
-    return xfemm_verif_csolvelog(this, PBCGSolve(2));
+    return xfemm_verif_csolvelog(this, status);
 #endif
-    return PBCGSolve(2);
+    return status;
 }
